@@ -33,6 +33,7 @@ type Run struct {
 	Dist     map[string]int
 	Samples  []string
 	Viol     []Violation
+	violCount map[string]int `json:"-"`
 	Notes    []string
 	Exhaustive bool
 }
@@ -82,7 +83,12 @@ func (r *Run) emit(nontrivial bool, class string, name string, args []string, wa
 func (r *Run) count(class string) { r.Dist[class]++ }
 
 func (r *Run) violate(key, format string, a ...any) {
-	if len(r.Viol) < 50 {
+	// at most 5 reports per key (so that a repeated known finding cannot crowd out a new violation), 400 overall
+	if r.violCount == nil {
+		r.violCount = map[string]int{}
+	}
+	r.violCount[key]++
+	if r.violCount[key] <= 5 && len(r.Viol) < 400 {
 		r.Viol = append(r.Viol, Violation{Key: key, Detail: fmt.Sprintf(format, a...)})
 	}
 }
